@@ -7,7 +7,7 @@
    with integer arithmetic.  Tied to the code bit-exactly by harness/props/C36.py.
    No axioms: everything is Z arithmetic. *)
 From Coq Require Import ZArith.
-From RxVerif Require Import Core.TimeConv Core.TimeConvFacts.
+From RxVerif Require Import Core.TimeConv Core.TimeConvFacts Core.TimeConvFacts2.
 Open Scope Z_scope.
 
 (* datetime <-> timedelta: exact and strictly order preserving, ALL values *)
@@ -67,6 +67,45 @@ Theorem C36_to_seconds_injective_in_range :
 Proof. exact to_seconds_injective_in_range. Qed.
 Print Assumptions C36_to_seconds_injective_in_range.
 
+(* ... and on float VALUES (fl_le / fl_eqb compare m * 2^e, not the syntactic pair): to_seconds is
+   strictly increasing in the range, hence injective up to value equality *)
+Theorem C36_to_seconds_strict_in_range :
+  forall n n', Z.abs n < 2 ^ 33 * us_per_s -> Z.abs n' < 2 ^ 33 * us_per_s -> n < n' ->
+  ~ fl_le (to_seconds_td n') (to_seconds_td n).
+Proof. exact to_seconds_strict_in_range. Qed.
+Print Assumptions C36_to_seconds_strict_in_range.
+
+Theorem C36_to_seconds_value_injective_in_range :
+  forall n n', Z.abs n < 2 ^ 33 * us_per_s -> Z.abs n' < 2 ^ 33 * us_per_s ->
+  fl_eqb (to_seconds_td n) (to_seconds_td n') = true -> n = n'.
+Proof. exact to_seconds_value_injective_in_range. Qed.
+Print Assumptions C36_to_seconds_value_injective_in_range.
+
+(* [rn a b] (int / int true division, hence total_seconds()) IS the correctly rounded binary64 of
+   a / b, ALL a, b > 0: with 2^e = up e / dn e, the exponent is at least -1074, the mantissa is in
+   [0, 2^53] (at least 2^52 unless subnormal), the error is at most half a unit in the last place
+   and a tie goes to the even mantissa.  No overflow to infinity (not modelled). *)
+Theorem C36_rn_correct :
+  forall a b, 0 < a -> 0 < b ->
+  let 'F m e := rn a b in
+  -1074 <= e /\ 0 <= m <= 2 ^ 53 /\ (-1074 < e -> 2 ^ 52 <= m) /\
+  2 * Z.abs (m * (b * up e) - a * dn e) <= b * up e /\
+  (2 * Z.abs (m * (b * up e) - a * dn e) = b * up e -> Z.even m = true).
+Proof. exact rn_correct. Qed.
+Print Assumptions C36_rn_correct.
+
+(* the spec determines the mantissa at a given exponent *)
+Theorem C36_rn_spec_unique_at_exp :
+  forall a b m m' e, 0 < b -> rn_spec a b (F m e) -> rn_spec a b (F m' e) -> m = m'.
+Proof. exact rn_spec_unique_at_exp. Qed.
+Print Assumptions C36_rn_spec_unique_at_exp.
+
+(* negative numerators are the mirror image *)
+Theorem C36_rn_correct_neg :
+  forall a b, a < 0 -> 0 < b -> exists m e, rn a b = F (- m) e /\ rn_spec (- a) b (F m e).
+Proof. exact rn_correct_neg. Qed.
+Print Assumptions C36_rn_correct_neg.
+
 (* to_timedelta(float) and to_datetime(float) preserve order, ALL finite floats (aligned or
    not; half-way cases; any magnitude) *)
 Theorem C36_float_conversions_order :
@@ -89,4 +128,13 @@ Example C36_half_even : us_of_float (F 1 (-7)) = 7812 /\ us_of_float (F 3 (-7)) 
 Proof. repeat split; vm_compute; reflexivity. Qed.
 
 Example C36_last_in_range : us_of_float (to_seconds_td (2 ^ 33 * us_per_s - 1)) = 2 ^ 33 * us_per_s - 1.
+Proof. vm_compute. reflexivity. Qed.
+
+(* rn_spec on a tie and on a subnormal: 1 / 2^1075 is half the smallest subnormal -> 0 (even);
+   3 / 2^1075 -> 2 * 2^-1074 (even) *)
+Example C36_rn_tie_subnormal : rn 1 (2 ^ 1075) = F 0 (-1074) /\ rn 3 (2 ^ 1075) = F 2 (-1074).
+Proof. split; vm_compute; reflexivity. Qed.
+
+Example C36_strict_neighbours :
+  fl_leb (to_seconds_td (2 ^ 33 * us_per_s - 1)) (to_seconds_td (2 ^ 33 * us_per_s - 2)) = false.
 Proof. vm_compute. reflexivity. Qed.
